@@ -25,7 +25,7 @@ EXHAUSTIVE = {"quick": False, "thorough": False}
 def plan(tier, seed):
     if tier == "quick":
         return [{"freeform": 2500, "mutated": 2500, "corpus": 40, "salt": 0}]
-    return [{"freeform": 18000, "mutated": 18000, "corpus": 500, "salt": i} for i in range(32)]
+    return [{"freeform": 40000, "mutated": 40000, "corpus": 1000, "salt": i} for i in range(32)]
 
 
 def call_both(ctx, fn, what, t, wit_fn):
